@@ -1,6 +1,6 @@
 """C08 — compile is all-or-nothing."""
 import re
-from ..facts import callee_of, short, sp_file_line, expr_str
+from ..facts import callee_of, short, sp_file_line, expr_str, expr_walk
 from .. import kit
 from ..stages import StageAnalysis, STAGES
 from .c07 import command_units, MAIN
@@ -137,6 +137,40 @@ def run(ctx):
             aty = (t.get("arg_tys") or [""])[0]
             if not ("Stdout" in aty or "Stderr" in aty or "Formatter" in aty or "String" in aty):
                 wr.add(b)
+    # a loop that writes every element of a vector known to be non-empty (a push outside every loop dominates it, nothing takes elements out)
+    # runs at least once: its head counts as a write site when every way round the loop passes a write
+    lps4 = kit.loops(main)
+    for hh, (body, latches) in sorted(lps4.items()):
+        th = main.term(hh)
+        if not (th["k"] == "call" and (callee_of(th) or "").endswith("::next") and re.search(r"vec::into_iter::IntoIter<|slice::iter::Iter<", (th.get("arg_tys") or [""])[0])
+                and not re.search(r"adapters::", (th.get("arg_tys") or [""])[0])):
+            continue
+        src = main.expr(th["args"][0], 8, stop={"named"})
+        for x in list(expr_walk(src)):
+            if x[0] == "local" and "Iter<" in main.local_ty(x[1]):
+                sd_ = main.single_def(x[1])
+                if sd_ and sd_[0] == "stmt":
+                    src = main.rvalue_expr(sd_[3]["r"], 6, stop={"named"})
+                elif sd_ and sd_[0] == "call":
+                    src = ("call", callee_of(sd_[3]), tuple(main.expr(a_, 6, stop={"named"}) for a_ in sd_[3]["args"]))
+        vecs = {x[1] for x in expr_walk(src) if x[0] == "local" and "alloc::vec::Vec<" in main.local_ty(x[1])}
+        if len(vecs) != 1:
+            continue
+        v = next(iter(vecs))
+        ops_v = [(b_, c_) for b_, t_, c_ in main.calls() if c_ and c_.startswith("alloc::vec::Vec::<T, A>::") and t_.get("args")
+                 and any(x[0] == "local" and x[1] == v for x in expr_walk(main.expr(t_["args"][0], 4, stop={"named"})))]
+        if any(re.search(r"::(remove|pop|truncate|clear|swap_remove|retain|drain|split_off|retain_mut|dedup\w*)$", c_) for b_, c_ in ops_v):
+            continue
+        first = [b_ for b_, c_ in ops_v if c_.endswith("::push") and not any(b_ in bd for h_, (bd, l_) in lps4.items()) and main.dominates(b_, hh)]
+        if not first:
+            continue
+        sw = main.term(th["t"]) if th.get("t") is not None else None
+        if not sw or sw["k"] != "switch":
+            continue
+        some_t = {v_: x_ for v_, x_ in sw["targets"]}.get(1)
+        w_in = {b_ for b_ in wr if b_ in body}
+        if some_t is not None and w_in and hh not in main.reachable(some_t, avoid=w_in):
+            wr.add(hh)
     ctx.need(okrets, "Ok(..) return in the compile arm")
     ctx.instance(1, {"success returns": len(okrets), "write sites": len(wr)})
     dodge = [b for b in okrets if b in main.reachable(entry, avoid=wr)] if wr else okrets
@@ -213,7 +247,6 @@ def run(ctx):
     # behind the opening of the destination, the only thing that may still fail is writing the destination itself; any other fallible step
     # there (a second output file, a late check) can fail *after* the object file is complete - non-zero exit, destination changed
     ctx.rule("C08.R7", "nothing but the destination's own writes can fail once it has been opened", floor=1)
-    from ..facts import expr_walk
     err_edges = sorted(kit.result_err_edges(main))
     n7 = 0
     for eb, et in err_edges:
